@@ -2,7 +2,7 @@
    "<model outcome>\t<spec outcome>\t<class>" per line.  Each handler is a thin
    parser/printer around functions extracted from the Coq model. *)
 let handlers : (string list -> (string * string * string) option) list = [
-  P_c06.handle; P_c06.handle_sweep; P_ptr.handle; P_ptr.handle_bulk; P_ptr.handle_chain; P_c15.handle; P_life.handle; P_life.handle_mt; P_calls.handle; P_calls.handle_sx; P_inv.handle; P_mem.handle; P_mem.handle_arr; P_struct.handle; P_ops.handle; P_fops.handle; P_verify.handle; P_casts.handle;
+  P_c06.handle; P_c06.handle_sweep; P_ptr.handle; P_ptr.handle_bulk; P_ptr.handle_chain; P_c15.handle; P_life.handle; P_life.handle_mt; P_calls.handle; P_calls.handle_cbk; P_calls.handle_sx; P_inv.handle; P_mem.handle; P_mem.handle_arr; P_struct.handle; P_ops.handle; P_fops.handle; P_verify.handle; P_casts.handle;
 ]
 
 let () =
